@@ -18,8 +18,8 @@ compares ``.type`` of *every* symbol created so far with the model.
 """
 from hypothesis import strategies as st
 
-from ..core import Ctx, derive_seed
-from ..tables import minimise_ops
+from ..core import Ctx
+from ..tables import minimise_ops, run_machine_chunked
 
 ID = 'C13'
 LEVEL = 'exploration'
@@ -826,8 +826,6 @@ def check_case(case, ctx):
 
 
 def run_shard(ctx):
-    import hypothesis
-    from hypothesis.stateful import run_state_machine_as_test
     env()
     combos = plain_cases() + member_cases()
     mine = combos[ctx.shard::ctx.nshards]
@@ -842,9 +840,7 @@ def run_shard(ctx):
     before = set(ctx.failures)
     init, rules = _history_strategies(ctx.thorough)
     machine = _make_machine(ctx, init, rules)
-    n = ctx.scale(8000, 120000)
-    run_state_machine_as_test(hypothesis.seed(derive_seed(ctx.seed, 'history'))(machine),
-                              settings=ctx.settings(n, stateful_step_count=40 if ctx.thorough else 20))
+    n = run_machine_chunked(ctx, machine, 'history', ctx.scale(6000, 120000), 40 if ctx.thorough else 20)
     _minimise(ctx, before)
     ctx.extra['histories_requested'] = n
 
